@@ -299,3 +299,15 @@ pub fn vx_collect_vec<T>(it: VxIter<T>) -> (r: Vec<T>)
 {
     it.collect_vec()
 }
+
+/// concatenation of a list of strings (Iterator<Item = String>::collect::<String>())
+pub open spec fn concat_strs(l: Seq<String>) -> Seq<char>
+    decreases l.len()
+{
+    if l.len() == 0 { Seq::empty() } else { concat_strs(l.drop_last()) + l.last()@ }
+}
+/// `it.collect::<String>()`
+#[verifier::external_body]
+pub fn vx_collect_string(it: VxIter<String>) -> (r: String)
+    ensures r@ == concat_strs(it@)
+{ unimplemented!() }
